@@ -1323,6 +1323,21 @@ static void limitCases() {
   runCase(cx, mk(T::OR, { mk(T::EQUAL, { mk(T::DEBOOL, { G("X1") }), mk(T::DEBOOL, { G("X1") }) }), mk(T::EQUAL, { mkInt(1), mkInt(1) }) }), "limit.debool", false);
   runCase(cx, mk(T::IMPLICATION, { mk(T::EQUAL, { mkInt(1), mkInt(2) }), mk(T::EQUAL, { mk(T::DEBOOL, { G("X1") }), mk(T::DEBOOL, { G("X1") }) }) }), "limit.debool", false);
   runCase(cx, mkIdx(T::FILTER, { 1 }, { mk(T::NT_ENUMERATION, { mk(T::DEBOOL, { G("X1") }) }), mk(T::SET_MINUS, { mk(T::DECART, { G("X1"), G("X1") }), mk(T::DECART, { G("X1"), G("X1") }) }) }), "limit.debool", false);
+  // stage 8 of C01 / C02 (filters): order of parameter evaluation in EvaluateFilterTuple / EvaluateFilterComplex.
+  // An empty parameter BEFORE an erroneous one: the value is the empty set; an erroneous one before an empty one: invalidDebool
+  // (the reference semantics has the value {} in both cases - only the refinement direction is claimed: filter_error_before_empty_example)
+  {
+    const auto x1x1 = [] { return mk(T::DECART, { G("X1"), G("X1") }); };
+    const auto bad = [] { return mk(T::NT_ENUMERATION, { mk(T::DEBOOL, { G("X1") }) }); };
+    const auto none = [] { return mk(T::SET_MINUS, { G("X1"), G("X1") }); };
+    runCase(cx, mkIdx(T::FILTER, { 1, 2 }, { none(), bad(), x1x1() }), "stage8.filter-empty-before-error", false);
+    runCase(cx, mkIdx(T::FILTER, { 1, 2 }, { bad(), none(), x1x1() }), "stage8.filter-error-before-empty", false);
+    runCase(cx, mkIdx(T::FILTER, { 2, 1 }, { G("X1"), none(), x1x1() }), "stage8.filter-empty-param", false);
+    runCase(cx, mkIdx(T::FILTER, { 1, 2 }, { mk(T::SET_MINUS, { x1x1(), x1x1() }), x1x1() }), "stage8.filter-complex-empty-param", false);
+    runCase(cx, mk(T::EQUAL, { mkIdx(T::FILTER, { 2, 1 }, { x1x1(), x1x1() }), x1x1() }), "stage8.filter-complex", false);
+    runCase(cx, mk(T::EQUAL, { mk(T::CARD, { mkIdx(T::FILTER, { 2, 1 }, { mk(T::NT_DECLARATIVE_EXPR, { mk(T::NT_TUPLE_DECL, { L("p"), L("q") }), x1x1(), mk(T::NOTEQUAL, { L("p"), L("q") }) }), x1x1() }) }), mkInt(2) }), "stage8.filter-complex", false);
+    runCase(cx, mk(T::FORALL, { mk(T::NT_TUPLE_DECL, { L("a"), L("b") }), mkIdx(T::FILTER, { 2 }, { G("X1"), x1x1() }), mk(T::IN, { L("b"), G("X1") }) }), "stage8.filter-under-pattern", true);
+  }
 }
 
 int main(int argc, char** argv) {
